@@ -65,6 +65,7 @@ namespace smt
         exprs.emplace("b" + std::to_string(id), id);
         level.emplace_back(0);
         reason.emplace_back(nullptr);
+        ORATIO_VERIF_HOOK(new_sat_var(*this, id));
         return id;
     }
 
